@@ -335,6 +335,7 @@ impl Transport for Cap {
 enum MOp {
     Round(u64, Vec<u64>),
     SuspectNode(u64, u64),
+    AddPeer(u64, u64),
     Deliver(u64),
 }
 impl MOp {
@@ -342,6 +343,7 @@ impl MOp {
         match self {
             MOp::Round(r, o) => format!("MRound {r} {}", list(o.iter().map(|x| n(*x)))),
             MOp::SuspectNode(r, m) => format!("MSuspectNode {r} {m}"),
+            MOp::AddPeer(r, p) => format!("MAddPeer {r} {p}"),
             MOp::Deliver(k) => format!("MDeliver {k}"),
         }
     }
@@ -387,7 +389,7 @@ struct Cluster {
     pool: Vec<(u64, GossipMessage)>,
 }
 impl Cluster {
-    fn new(rr: u64, maxd: u64, expire: bool) -> Self {
+    fn new(rr: u64, maxd: u64, expire: bool, full: bool) -> Self {
         let rt = tokio::runtime::Builder::new_current_thread().enable_all().build().unwrap();
         let out: Out = Arc::new(Mutex::new(vec![]));
         let mgrs = (0..rr)
@@ -403,7 +405,7 @@ impl Cluster {
                 };
                 let m = GossipMembershipManager::new(name(i), cfg, Arc::new(Cap { local: name(i), out: out.clone() }));
                 for p in 0..rr {
-                    if p != i {
+                    if full && p != i {
                         m.add_peer(name(p));
                     }
                 }
@@ -440,8 +442,8 @@ impl Cluster {
 }
 
 /// one schedule on a cluster; `script` (when given) is replayed instead of random choices
-fn mgr_case(r: &mut Rng, rr: u64, maxd: u64, expire: bool, len: usize, script: Option<&[MOp]>, dist: &mut Dist) -> (String, String, bool) {
-    let mut c = Cluster::new(rr, maxd, expire);
+fn mgr_case(r: &mut Rng, rr: u64, maxd: u64, expire: bool, full: bool, len: usize, script: Option<&[MOp]>, dist: &mut Dist) -> (String, String, bool) {
+    let mut c = Cluster::new(rr, maxd, expire, full);
     let mut ops = vec![];
     let mut obs = vec![];
     let mut failed_seen = false;
@@ -452,7 +454,9 @@ fn mgr_case(r: &mut Rng, rr: u64, maxd: u64, expire: bool, len: usize, script: O
             Some(s) => s[step].clone(),
             None => {
                 let k = r.below(100);
-                if c.pool.is_empty() || k < 18 {
+                if !full && (r.chance(1, 6) || (c.pool.is_empty() && r.chance(1, 2))) {
+                    MOp::AddPeer(r.below(rr), r.below(rr))
+                } else if c.pool.is_empty() || k < 18 {
                     if r.chance(1, 2) {
                         MOp::Round(r.below(rr), vec![])
                     } else {
@@ -508,6 +512,11 @@ fn mgr_case(r: &mut Rng, rr: u64, maxd: u64, expire: bool, len: usize, script: O
                 dist.hit("mop.suspect_node");
                 (MOp::SuspectNode(m, x), m)
             },
+            MOp::AddPeer(m, p) => {
+                c.mgrs[m as usize].add_peer(name(p));
+                dist.hit("mop.add_peer");
+                (MOp::AddPeer(m, p), m)
+            },
             MOp::Deliver(k) => {
                 let (d, msg) = c.pool[k as usize].clone();
                 dist.hit(&format!("mop.deliver.{}", ["sync", "suspect", "alive", "pingreq", "pingack", "other"][gmsg_rank(&msg) as usize]));
@@ -534,8 +543,8 @@ fn mgr_case(r: &mut Rng, rr: u64, maxd: u64, expire: bool, len: usize, script: O
     if alive_seen {
         dist.hit("mgr.case_with_self_refutation");
     }
-    let term = format!("({rr}, {maxd}, {}, {}, {})", b(expire), list(ops.iter().map(|o| o.coq())), list(obs));
-    (term, format!("R={rr} max_incarnation_delta={maxd} expire={expire} mops={ops:?}"), failed_seen || alive_seen)
+    let term = format!("({rr}, {maxd}, {}, {}, {}, {})", b(expire), b(full), list(ops.iter().map(|o| o.coq())), list(obs));
+    (term, format!("R={rr} max_incarnation_delta={maxd} expire={expire} all_peers_known_at_start={full} mops={ops:?}"), failed_seen || alive_seen)
 }
 
 /// every permutation of a small set, delivered one by one (exhaustive over orders)
@@ -630,15 +639,28 @@ fn main() {
     {
         // corpus: suspicion -> self-refutation -> Alive accepted; suspicion -> expiry -> Failed; a Sync that carries it on
         let s1 = [MOp::SuspectNode(0, 1), MOp::Deliver(0), MOp::Deliver(2), MOp::Round(0, vec![]), MOp::Deliver(3)];
-        let (t, h, nt) = mgr_case(&mut rng, 2, 100, true, 0, Some(&s1), &mut dist);
+        let (t, h, nt) = mgr_case(&mut rng, 2, 100, true, true, 0, Some(&s1), &mut dist);
         mgr.push(&t, &format!("corpus self-refutation: {h}"), nt);
         let s2 = [MOp::SuspectNode(0, 1), MOp::SuspectNode(0, 2), MOp::Round(0, vec![]), MOp::Deliver(4), MOp::Deliver(5), MOp::Round(1, vec![]), MOp::Deliver(6)];
-        let (t, h, nt) = mgr_case(&mut rng, 3, 100, true, 0, Some(&s2), &mut dist);
+        let (t, h, nt) = mgr_case(&mut rng, 3, 100, true, true, 0, Some(&s2), &mut dist);
         mgr.push(&t, &format!("corpus expiry of two suspicions: {h}"), nt);
         // incarnation-delta filter: with max delta 0 an Alive / Sync carrying a raised incarnation is refused
         let s3 = [MOp::SuspectNode(0, 1), MOp::Deliver(0), MOp::Deliver(2), MOp::Round(1, vec![]), MOp::Deliver(3)];
-        let (t, h, nt) = mgr_case(&mut rng, 2, 0, false, 0, Some(&s3), &mut dist);
+        let (t, h, nt) = mgr_case(&mut rng, 2, 0, false, true, 0, Some(&s3), &mut dist);
         mgr.push(&t, &format!("corpus delta filter: {h}"), nt);
+        // a member learned through gossip (at a raised incarnation) and only later registered with add_peer
+        let s4 = [MOp::AddPeer(0, 1), MOp::AddPeer(0, 2), MOp::AddPeer(2, 0), MOp::SuspectNode(0, 2), MOp::Deliver(1), MOp::Deliver(4),
+                  MOp::Round(0, vec![]), MOp::Deliver(5), MOp::AddPeer(1, 2), MOp::AddPeer(1, 0), MOp::AddPeer(1, 1), MOp::Round(1, vec![]), MOp::Deliver(7)];
+        let (t, h, nt) = mgr_case(&mut rng, 3, 100, false, false, 0, Some(&s4), &mut dist);
+        mgr.push(&t, &format!("corpus add_peer after gossip: {h}"), nt);
+        // the same suspicion about a node reaches it three times: its own incarnation must keep moving forward
+        let s5 = [MOp::SuspectNode(0, 1), MOp::Deliver(0), MOp::Deliver(0), MOp::Deliver(2), MOp::Deliver(0), MOp::Deliver(3), MOp::Deliver(4), MOp::Deliver(2)];
+        let (t, h, nt) = mgr_case(&mut rng, 2, 100, false, true, 0, Some(&s5), &mut dist);
+        mgr.push(&t, &format!("corpus repeated suspicion about self: {h}"), nt);
+        // a stale suspicion (older incarnation) starts a timer after the member moved on; expiry must not rewind it
+        let s6 = [MOp::SuspectNode(0, 2), MOp::Deliver(1), MOp::Deliver(4), MOp::Deliver(5), MOp::Round(0, vec![]), MOp::Deliver(7), MOp::Deliver(0), MOp::Round(1, vec![]), MOp::Round(1, vec![])];
+        let (t, h, nt) = mgr_case(&mut rng, 3, 100, true, true, 0, Some(&s6), &mut dist);
+        mgr.push(&t, &format!("corpus stale suspicion then expiry: {h}"), nt);
     }
     let nmgr = args.budget(120, 6000);
     for _ in 0..nmgr {
@@ -646,7 +668,8 @@ fn main() {
         let maxd = *rng.pick(&[100u64, 100, 1, 0]);
         let expire = rng.chance(1, 2);
         let len = rng.range(4, 30) as usize;
-        let (t, h, nt) = mgr_case(&mut rng, rr, maxd, expire, len, None, &mut dist);
+        let full = rng.chance(2, 3);
+        let (t, h, nt) = mgr_case(&mut rng, rr, maxd, expire, full, len, None, &mut dist);
         mgr.push(&t, &h, nt);
     }
 
